@@ -71,6 +71,10 @@ def run(ctx):
     r157(ctx, rep)
     rep.rule('R15.8', 'appending text never writes a second byte order mark: no append writer wraps a member-restarting (gzip / bz2) stream with a BOM-capable caller encoding unchanged')
     r158(ctx, rep)
+    rep.rule('R15.9', 'source objects hand the open mode on unchanged (append stays append)')
+    r159(ctx, rep)
+    rep.rule('R15.10', 'records written for a row carry every header field: no zip(fields, row) truncation of short rows')
+    r1510(ctx, rep)
 
 
 def r151(ctx, rep):
@@ -559,3 +563,73 @@ def r158(ctx, rep):
                 rep.held('R15.8', writer, c, 'no member-restarting source / the encoding is adjusted for append', w)
     if n < 3:
         raise AnalysisError('anchor vanished: append writers')
+
+
+# ------------------------------------------------------------------------ R15.9
+def r159(ctx, rep):
+    """to* opens its target 'wb', append* 'ab', from* 'rb' (R15.3) -- and the source object hands that mode on to the
+    opener that does the work.  A source that re-binds its `mode` parameter, or derives the opener's mode from constants
+    chosen by a test (`'r' if ... else 'w'`), collapses 'a' into 'w': an append truncates the target."""
+    n = 0
+    for mname in ('petl.io.sources', 'petl.io.remotes'):
+        m = ctx.project.modules.get(mname)
+        if m is None:
+            continue
+        for cq, ci in sorted(m.classes.items()):
+            op = ci.methods.get('open')
+            if op is None or len(op.params) < 2:
+                continue
+            for fn in [op] + [g for g in ci.methods.values() if g is not op and 'mode' in g.params and g.name.startswith('open')]:
+                mode = 'mode' if 'mode' in fn.params else fn.params[1]
+                n += 1
+                bad = None
+                derived = {}
+                for x in own_nodes(fn.node):
+                    tg = []
+                    if isinstance(x, ast.Assign):
+                        tg = x.targets
+                    elif isinstance(x, ast.AugAssign):
+                        tg = [x.target]
+                    for t in tg:
+                        if isinstance(t, ast.Name) and isinstance(x, ast.Assign) and \
+                                (t.id == mode or any(isinstance(y, ast.Name) and y.id == mode for y in ast.walk(x.value))):
+                            derived[t.id] = x.value         # mode itself re-bound, or a mode variable derived from it
+                        elif isinstance(t, ast.Name) and t.id == mode:
+                            bad = (x, 're-binds its `%s` parameter (`%s`)' % (mode, norm(x)[:50]))
+                for nm, v in derived.items():
+                    consts = [y for y in ast.walk(v) if isinstance(y, ast.IfExp)]
+                    if isinstance(v, ast.Constant):
+                        bad = (v, 'replaces the mode by the constant %s' % norm(v))
+                    elif consts and all(isinstance(c.body, ast.Constant) and isinstance(c.orelse, ast.Constant) for c in consts):
+                        bad = (v, 'derives the opener\'s mode from constants (`%s = %s`)' % (nm, norm(v)[:50]))
+                if bad:
+                    rep.violated('R15.9', fn, '%s.%s: mode' % (ci.name, fn.name),
+                                 'the source %s: a mode that is neither read nor write -- append -- is not handed on as it is, '
+                                 'so append* truncates (or refuses) a target it should extend' % bad[1], bad[0])
+                else:
+                    rep.held('R15.9', fn, '%s.%s: mode' % (ci.name, fn.name), 'the caller\'s mode reaches the opener', fn.node)
+    if n < 8:
+        raise AnalysisError('anchor vanished: only %d source open() methods' % n)
+
+
+# ----------------------------------------------------------------------- R15.10
+def r1510(ctx, rep):
+    """The records written for a row carry every field of the header: a short row is padded, not cut to its own length
+    (json: field names travel in the records, a field that is missing from the sampled records vanishes from the table
+    read back)."""
+    from .common import zip_truncations
+    n = 0
+    for mname in ('petl.io.json', 'petl.io.text', 'petl.io.html'):
+        m = ctx.project.modules.get(mname)
+        if m is None:
+            continue
+        for fn in ctx.functions([mname]):
+            n += 1
+            for node in zip_truncations(ctx, fn):
+                rep.violated('R15.10', fn, norm(node)[:60],
+                             'field names are paired with the cells of a source row by zip(), which stops at the shorter of the '
+                             'two: a row shorter than the header produces a record without its trailing fields instead of '
+                             'padded ones, and what is read back has fewer fields / other values than what was written', node)
+    rep.held('R15.10', ('petl.io', '*'), 'records carry every field', '%d writer/reader functions scanned' % n, None)
+    if n < 20:
+        raise AnalysisError('anchor vanished: io functions (%d)' % n)
